@@ -5,15 +5,34 @@ import Gtree.Model.Cli
 -/
 namespace Gtree
 
+/-- every helper of cmd/gtree that ends the process through `cli.Exit` does so with a non-zero status
+    (a statement about the regenerated table: it is re-decided against the sources on every run) -/
+theorem C16_exit_helpers_nonzero : ∀ p ∈ Facts.cliExitCodes, p.2 ≠ 0 := by decide
+
+/-- the helpers the model's table names exist in the sources, with pairwise different statuses other than
+    the 1 of a usage error: the failure classes stay distinguishable -/
+theorem C16_exit_classes_distinct :
+    [exitCode "exitErrOpen", exitCode "exitErrOutput", exitCode "exitErrMkdir", exitCode "exitErrVerify"].Nodup ∧
+    ∀ c ∈ [exitCode "exitErrOpen", exitCode "exitErrOutput", exitCode "exitErrMkdir", exitCode "exitErrVerify"], 1 < c := by
+  decide
+
+/-- every function of cmd/gtree that runs a library call reports its failure through a helper -/
+theorem C16_actions_report_failures :
+    "actionOutput:exitErrOutput" ∈ Facts.cliActionExits ∧ "actionOutput:exitErrOpen" ∈ Facts.cliActionExits ∧
+    "actionOutput:exitErrOpts" ∈ Facts.cliActionExits ∧ "actionMkdir:exitErrMkdir" ∈ Facts.cliActionExits ∧
+    "actionMkdir:exitErrOutput" ∈ Facts.cliActionExits ∧ "actionMkdir:exitErrOpen" ∈ Facts.cliActionExits ∧
+    "actionVerify:exitErrVerify" ∈ Facts.cliActionExits ∧ "actionVerify:exitErrOpen" ∈ Facts.cliActionExits := by
+  decide
+
 theorem C16_exit_zero_iff (sub : Sub) (dry : Bool) (st : CliStage) :
     exitStatus sub dry st = 0 ↔ st = .lib true := by
   cases st with
   | usage => simp [exitStatus]
-  | opts => simp [exitStatus]
-  | open_ => simp [exitStatus]
+  | opts => simp only [exitStatus]; decide
+  | open_ => simp only [exitStatus]; decide
   | lib ok =>
     cases ok
-    · cases sub <;> cases dry <;> simp [exitStatus]
+    · cases sub <;> cases dry <;> simp only [exitStatus] <;> decide
     · simp [exitStatus]
 
 /-- every failure class has a non-zero status -/
